@@ -268,6 +268,17 @@ def check_history(case, ctx):
     perm = list(dict.fromkeys(perm + list(range(n))))  # a permutation of 0..n-1 led by the drawn prefix
     engines = []
     try:
+        import sqlalchemy.exc as _saexc
+
+        try:
+            _build_all(case, sibs)
+        except _saexc.InvalidRequestError as e:
+            if "Please use unique names for explicit labels" in str(e):
+                # the generated statement re-uses one explicit label name in a subquery/CTE: documented construction-time
+                # rejection, not a cache question (generator domain, not a violation)
+                ctx.note(case, False, classes=["rejected:duplicate-explicit-label"])
+                return
+            raise
         e_off = _Engine(case["data"], query_cache_size=0)
         engines.append(e_off)
         e_cold = _Engine(case["data"])
